@@ -64,6 +64,11 @@ OpsOf(g) ==
     [] g = "ordel"   -> {"ord_memberchk", "ord_add_element", "ord_del_element", "ord_selectchk"}
     [] g = "ordlol"  -> {"ord_union2", "ord_intersection2"}
 
+(* long key lists with few distinct keys (many equal keys far apart: what an implementation that switches algorithm with *)
+(* the length must still sort stably): n keys (7i + 3) mod m                                                                *)
+LongKeys(n, m) == [i \in 1..n |-> IntT((7 * i + 3) % m)]
+LongKeyLists == {LongKeys(n, m) : n \in {20, 33, 47, 64, 100}, m \in {2, 3, 5}}
+
 (* a list of length <= n over A is split into a prefix x of length <= 2 and the rest y *)
 Pre(A)          == ListsUpTo(A, 2)
 Suf(A, n, xx)   == IF Len(xx) < 2 THEN {<<>>} ELSE ListsUpTo(A, n - 2)
@@ -73,7 +78,7 @@ XDom(g) ==
   CASE g = "sort"    -> Pre(T7)
     [] g = "special" -> Pre(SP)
     [] g = "sorterr" -> ListsUpTo(S3, 2)
-    [] g = "keysort" -> Pre(K4)
+    [] g = "keysort" -> Pre(K4) \cup LongKeyLists
     [] g = "list"    -> Pre(S3)
     [] g = "listel"  -> ListsUpTo(S3, 3)
     [] g = "listidx" -> ListsUpTo(S3, 3)
@@ -89,7 +94,7 @@ YDom(g, xx) ==
   CASE g = "sort"    -> Suf(T7, NSort, xx)
     [] g = "special" -> Suf(SP, 3, xx)
     [] g = "sorterr" -> {<<u>> : u \in {Atom("foo"), IntT(1), F1("f", a_)}}
-    [] g = "keysort" -> Suf(K4, NKey, xx)
+    [] g = "keysort" -> IF Len(xx) > 2 THEN {<<>>} ELSE Suf(K4, NKey, xx)
     [] g = "list"    -> Suf(S3, 4, xx)
     [] g = "listel"  -> {<<e>> : e \in S3 \cup {Atom("z")}}
     [] g = "listidx" -> {<<IntT(i)>> : i \in 0..4}
